@@ -13,6 +13,7 @@ import os
 import random
 import shutil
 
+import hsreplay13
 import scen
 import vlib
 
@@ -129,8 +130,27 @@ def run(chk):
         res = vlib.tlc_check(MODULE, "Handshake12.%s.live.%s.cfg" % (variant, t), timeout=2400)
         chk.add_tlc("live." + variant, res)
     vlib.tlc_expect_violation(MODULE, "Handshake12.resume.live.nofix.cfg", "BothEstablish", timeout=600)
+    # DTLS 1.3: BothEstablish on spec/Handshake13.tla; without the re-sent HelloRetryRequest (pinned tree) it must fail
+    for variant in ("hrr", "nohrr"):
+        res = vlib.tlc_check("Handshake13", "Handshake13.%s.live.%s.cfg" % (variant, t), timeout=2400)
+        chk.add_tlc("live13." + variant, res)
+    vlib.tlc_expect_violation("Handshake13", "Handshake13.hrr.live.nofix.cfg", "BothEstablish (lost HelloRetryRequest never re-sent)", timeout=600)
     binary = vlib.build("root")
     replay_model_scripts(chk, binary)
+    # (B1, DTLS 1.3) every edge script of Handshake13.tla, then the network turns reliable: both must complete
+    for variant in ("hrr", "nohrr"):
+        scripts13 = hsreplay13.generate(chk, variant)
+        rows, summ, sc13 = hsreplay13.replay(chk, binary, variant, scripts13)
+        ninc = 0
+        for r in rows:
+            if not r["completed"]:
+                ninc += 1
+                chk.violation({"kind": "no-completion-after-faults", "variant": "dtls13-" + variant, "final": r.get("final"),
+                               "cerr": r.get("cerr"), "serr": r.get("serr"),
+                               "script13": {"scen": sc13, "steps": scripts13[r["script"]]["steps"], "cap": 2, "bkcap": 3}})
+            elif r.get("diverge") and ninc == 0 and summ.get("diverged", 0) <= 2:
+                chk.note("DIVERGENCE model/code (1.3 %s script %d): %s" % (variant, r["script"], r["diverge"][0]))
+        chk.parts["replay13." + variant] = {"scripts": summ["scripts"], "completed": summ.get("completed", 0), "diverged": summ.get("diverged", 0)}
     # (B2)
     cases = mask_cases(chk)
     rows, summ = run_masks(chk, binary, cases)
@@ -182,6 +202,19 @@ def replay(chk, path):
         for r in rows:
             if not r["completed"] or not r.get("dataOk"):
                 chk.violation(dict(facts, replayed=True))
+    elif "script13" in facts:
+        wd = vlib.scratch("c02r")
+        try:
+            inp, out = os.path.join(wd, "in"), os.path.join(wd, "out")
+            open(inp, "w").write(json.dumps(facts["script13"]) + "\n")
+            vlib.run_test(binary, "TestVerifHs13Scripts", {"VERIF_IN": inp, "VERIF_OUT": out})
+            chk.evaluated(key="replay13")
+            chk.evaluated(key="replay")
+            for r in vlib.read_ndjson(out)[:-1]:
+                if not r["completed"]:
+                    chk.violation(dict(facts, replayed=True), replay=path)
+        finally:
+            shutil.rmtree(wd, ignore_errors=True)
     elif "script" in facts:
         wd = vlib.scratch("c02r")
         try:
